@@ -23,6 +23,7 @@ import numpy as np
 import xarray as xr
 
 from harness import core
+from harness import pandora_util as pu
 
 GEN = ["gen_valconst", "gen_callbacks", "gen_interp_kernels"]
 EXTRACT_FILES = ["X14"]
@@ -482,13 +483,29 @@ def run_validation_stream(ctx, model, n_cases):
              for row in ds["disparity_map"].data]
         return d, ds["validity_mask"].data.astype(int).tolist()
 
-    for (cs, method), mr in zip(cases, mres):
+    shared = PandoraMachine()
+    for idx, ((cs, method), mr) in enumerate(zip(cases, mres)):
+        if getattr(ctx, "replay_case", None) is not None and ctx.replay_case.get("history"):
+            idx = 2
         dmin, dmax = cs["interval"]
         replay = {"stream": "validation_run", "case": c07.case_to_json(cs), "method": method}
         vcfg = {"validation_method": "cross_checking_accurate", "cross_checking_threshold": float(cs["thr"]),
                 "interpolated_disparity": method}
-        # the real callback
-        mach = PandoraMachine()
+        # the real callback; every other case on a machine object with a history (it has checked a pipeline whose
+        # validation step fills with the OTHER method, and has run the earlier cases of this kind): the filling is
+        # that of the configuration of THIS run
+        if idx % 4 >= 2:
+            mach = shared
+            other = METHODS[1 - METHODS.index(method)]
+            mach.check_conf({"pipeline": {
+                "matching_cost": {"matching_cost_method": "sad", "window_size": 1, "subpix": 1},
+                "disparity": {"disparity_method": "wta", "invalid_disparity": -9999},
+                "validation": {"validation_method": "cross_checking_accurate", "interpolated_disparity": other}}},
+                pu.meta_dataset(8, 9, (-2, 2)), pu.meta_dataset(8, 9, None))
+            ctx.count("validation_run_on_a_machine_with_a_history")
+            replay["history"] = "check_conf with interpolated_disparity=%s first" % other
+        else:
+            mach = PandoraMachine()
         mach.left_disparity = c07.make_ds(cs["L"], cs["maskL"], (dmin, dmax), cs["offset"], cs["nbL"])
         mach.right_disparity = c07.make_ds(cs["R"], cs["maskR"], (-dmax, -dmin), cs["offset"], cs["nbR"])
         mach.right_disp_map = "cross_checking_accurate"
